@@ -257,11 +257,11 @@ def ops_on(e, mode="full", rich=True):
         if s == ():
             mvs = [(2,), (1,)] if full else [(2,)]
             gis = [((2,), 0), ((2,), 1)] if full else [((2,), 1)]
-        elif s == (2,):
+        elif len(s) == 1:
             mvs = [(2,), (3,), (1,)] if full else [(3,)]
-            gis = [((2, 2), 0), ((2, 2), 1)] if full else [((2, 2), 1)]
+            gis = [((2,) + s, 0), ((2,) + s, 1)] if full else [((2,) + s, 1)]
         else:
-            mvs = [(2, 2), (1, 2), (3, 2)] if full else [(1, 2)]
+            mvs = [(2,) + s[1:], (1,) + s[1:], (3,) + s[1:]] if full else [(1,) + s[1:]]
             gis = []
         for ys in mvs:
             out.append(("affine:matvec", ("subs", e, ((n, ("matvec", u, ys, 20 + ri, ())),))))
